@@ -1063,6 +1063,7 @@ func (e *Eng) execGo(st *State, s *ast.GoStmt) *State {
 		if key != "" {
 			st.counters["go:"+key] = fmt.Sprintf("(+ %s 1)", counterOf(st, "go:"+key))
 		}
+		st.counters["spawn"] = fmt.Sprintf("(+ %s 1)", counterOf(st, "spawn"))
 		e.havocHeap(st)
 		return st
 	}
